@@ -105,7 +105,7 @@ impl Report {
             start: Instant::now(),
             known: load_known(property),
             inner: Mutex::new(Inner { violations: Vec::new(), known_hits: BTreeMap::new(), samples: Vec::new(), outcomes: BTreeMap::new(), seen_sigs: BTreeMap::new() }),
-            max_violation_files: 20,
+            max_violation_files: 400,
         }
     }
 
@@ -193,7 +193,9 @@ impl Report {
         let _ = std::fs::create_dir_all(format!("{VERIF_ROOT}/evidence/parts"));
         std::fs::write(&name, serde_json::to_string_pretty(&ev).unwrap()).expect("write evidence part");
         for (id, (desc, n)) in &g.known_hits {
-            println!("KNOWN-FINDING: property={} {} [{}] (matched {} times)", self.property, desc, id, n);
+            let sig = self.known.iter().find(|k| k["id"] == id.as_str()).map(|k| k["signature"].to_string()).unwrap_or_default();
+            let short: String = desc.chars().take(200).collect();
+            println!("KNOWN-FINDING: property={} [{}] {} -- {} (matched {} times)", self.property, id, sig, short, n);
         }
         for (f, path) in &g.violations {
             println!("VIOLATION property={} replay={}", self.property, path.display());
